@@ -11,7 +11,7 @@ Why it exists: defect D12 (d|v|/dv zeroed by cse + simplify) lived in a function
 from __future__ import annotations
 
 import sympy
-from sympy import Abs, Max, Min, Piecewise, Pow, Rational, acos, asin, asinh, atan, atan2, cbrt, cosh, cot, csc, erf, exp, log, root, sec, sinc, sinh, sqrt, tan, tanh
+from sympy import Abs, E, Max, Min, Piecewise, Pow, Rational, acos, acosh, acot, asec, asin, asinh, atan, atan2, atanh, cbrt, cosh, cot, coth, csc, erf, erfc, exp, gamma, log, loggamma, pi, root, sec, sech, sinc, sinh, sqrt, tan, tanh
 
 from replay import scenarios
 
@@ -44,6 +44,15 @@ FORMS = {
     "neg_int_pow": lambda a, b: b / a**3 + a**-2,
     "tan": lambda a, b: tan(a / 4) * b + atan(a * b),
     "exp_neg_sq": lambda a, b: exp(-(a**2)) * b,
+    "acot_asec": lambda a, b: acot(a) * b + asec(b * 2 + 5),
+    "coth_sech": lambda a, b: coth(a + 4) * b + sech(b),
+    "acosh_atanh": lambda a, b: acosh(a + 4) * b + atanh(b / 4),
+    "erfc": lambda a, b: erfc(a) * b,
+    "gamma": lambda a, b: gamma(a + 4) * b + loggamma(b + 4),
+    "log_base": lambda a, b: log(a + 4, 2) * b + log(b + 4, 10),
+    "e_pow": lambda a, b: E**a * b + exp(pi * b / 8),
+    "min3": lambda a, b: Min(a, b, 1) * a + Max(a, b, -1),
+    "nested_piecewise": lambda a, b: Piecewise((a, a < 0), (a**2 * b, a < 1), (b, True)),
 }
 QUICK = ("abs", "abs_sqrt", "abs_form_with_pole", "piecewise", "max", "atan2", "sec", "neg_int_pow")
 
